@@ -35,11 +35,12 @@ static void spectrum_cases(int d, const std::vector<double>& E, const std::vecto
   SU_vector H = mkvec(d, B.proj(ref::diag(E)));
   double Emax = 0; for (double e : E) Emax = std::max(Emax, std::fabs(e));
   std::vector<double> w(np); for (int p = 0; p < np; p++) w[p] = E[pairs[p].j] - E[pairs[p].k];
-  const double SC[] = {0, 0.37, 1.21, 3.3, 1e9, -1.21};
+  const double SC[] = {0, 0.37, 1.21, 3.3, 1e9, -1.21, 1e300, -3e22};
   std::string ds = ":d=" + std::to_string(d);
   uint64_t hE = hashvec(E, d);
-  // (a) averaging overload
-  for (double t : T) {
+  // (a) averaging overload; the times include ones whose phases exceed 2^53 (the scale may exceed them too)
+  std::vector<double> TA = T; if (!ar.reduced) { TA.push_back(4e15); TA.push_back(-2.5e17); TA.push_back(3e20); }
+  for (double t : TA) {
     std::vector<double> plain(2 * np); H.PrepareEvolve(plain.data(), t);
     for (double scale : SC) {
       count("evaluations"); { uint64_t h = ref::fnv(&t, 8, hE); h = ref::fnv(&scale, 8, h); if (Emax > 0 && t != 0) distinct(h ^ 1); }
